@@ -29,6 +29,9 @@ CHECKS = {
  "C20": dict(cat="exploration", tech="round-trip runtime monitor: COPY TO then COPY FROM, multiset comparison of typed cells",
    text="Random column type lists (12 types), contents with NULLs and delimiter/quote/newline characters, and CSV options; the re-imported table must equal the exported one.",
    note="Decimals compared by value. Empty strings and HEADER only through the sentinels of their known findings.", ref="6 C20"),
+ "C04": dict(cat="fault_enumeration", tech="crash-point enumeration through persistence hooks (directory snapshots + torn prefixes) with recovery in fresh processes vs a model",
+   text="Every persistence step executed by a workload is a crash state (directory copy taken inside the hook), plus torn variants of the file/manifest record in flight; each is recovered by a fresh process and must equal model(acked) or model(acked+interrupted); the interrupted statement is retried, new statements must succeed, and crashes during the recovery itself must recover to the same state.",
+   note="Process death only (no loss of un-fsynced page cache). The hook runs on the thread performing the step, so the copy is exactly what a kill at that point leaves.", ref="6 C04"),
 }
 
 def main():
